@@ -432,6 +432,30 @@ func valueSweeps() {
 	sweep("long-payload", b, e)
 	b, e = smfgen.ManyEvents()
 	sweep("many-events", b, e)
+	files, exps, names := smfgen.EOTEncodings()
+	for i, file := range files {
+		ctx.Eval()
+		ctx.NontrivialN(1)
+		if ref, err := refsmf.Parse(file, refsmf.Tolerant); err != nil {
+			ctx.Guard(false, "eot encodings: reference decoder rejects %s: %v", names[i], err)
+			continue
+		} else if ok, d := sp.CompareParsed(exps[i], ref); !ok {
+			ctx.Guard(false, "eot encodings: generator/decoder disagree (%s)", d)
+			continue
+		}
+		diff, _, what, c := decode(file, exps[i])
+		if diff == "" {
+			continue
+		}
+		sig := "decode:" + diff + ":end-of-track-with-padded-length"
+		if diff == "panic" {
+			sig = c.Sig + ":end-of-track-with-padded-length"
+		}
+		if ctx.SigCount(sig) < 5 {
+			ctx.Violation(sig, map[string]interface{}{"kind": "file", "file": engine.Hex(file), "shape": names[i], "what": what})
+		}
+	}
+	ctx.Add("sweep_eot_encodings", int64(len(files)))
 }
 
 // twoReaders: two files decoded by two threads that are switched inside their
